@@ -30,12 +30,17 @@ enum Op {
     CoreBlocks(CoreKind, Vec<u8>, [u8; 6]),
 }
 
-fn exec(m: &mut M, op: &Op) -> String {
+/// `alt` = the sequential replay: output buffers start with *different* contents than in the
+/// live run (what an output buffer held before a call is not part of "cipher, IV and the
+/// sequence of calls", so it must not show in the results).
+fn exec(m: &mut M, op: &Op, alt: bool) -> String {
     match (m, op) {
         (M::Bm(o), Op::Blocks(k, d, sb, pre)) => {
-            let mut out = prefill(pre.0, pre.1, d);
+            let mut out = if alt { prefill((pre.0 + 1) % 4, pre.1 ^ 0x5A5A_A5A5, d) } else { prefill(pre.0, pre.1, d) };
             let res = o.process(*k, d, &mut out, &mut Sched::new(*sb));
-            format!("{res:?} out={} st={:?}", tape::hex(&out), o.iv_state().map(|s| tape::hex(&s)))
+            // (a refused call leaves the buffer as it was, which differs between the two runs by construction)
+            let shown = if res.is_ok() { tape::hex(&out) } else { "-".into() };
+            format!("{res:?} out={shown} st={:?}", o.iv_state().map(|s| tape::hex(&s)))
         }
         (M::Buf(o), Op::Bytes(d)) => {
             let mut b = d.clone();
@@ -44,11 +49,18 @@ fn exec(m: &mut M, op: &Op) -> String {
             format!("out={} st=({},{p})", tape::hex(&b), tape::hex(&s))
         }
         (M::St(o), Op::S(s)) => {
-            let res = exec_sop(o.as_mut(), s);
+            let s = match s {
+                SOp::Apply(k, d, pre) if alt => &SOp::Apply(*k, d.clone(), ((pre.0 + 1) % 4, pre.1 ^ 0x5A5A_A5A5)),
+                other => other,
+            };
+            let res = match exec_sop(o.as_mut(), s) {
+                SRes::Apply(Err(e), _) => SRes::Apply(Err(e), Vec::new()),
+                other => other,
+            };
             format!("{res:?} bp={:?} rem={:?} st={:?}", o.core_block_pos(), o.core_remaining(), o.core_iv_state().map(|s| tape::hex(&s)))
         }
         (M::Core(o), Op::CoreBlocks(k, d, sb)) => {
-            let mut out = vec![0x21u8; d.len()];
+            let mut out = vec![if alt { 0xDEu8 } else { 0x21u8 }; d.len()];
             o.process(*k, d, &mut out, &mut Sched::new(*sb));
             format!("out={} bp={:?} rem={:?} st={:?}", tape::hex(&out), o.get_block_pos(), o.remaining_blocks(), o.iv_state().map(|s| tape::hex(&s)))
         }
@@ -198,14 +210,14 @@ pub fn check(ctx: &Ctx, t: &mut Tape<'_>, r: &mut Report) -> CheckResult {
         let mut x = mk(&key, &iv);
         let mut y = mk(&key2, &iv2);
         for op in &h1 {
-            exec(&mut x, op);
-            exec(&mut y, op);
+            exec(&mut x, op, false);
+            exec(&mut y, op, false);
         }
         (x, y)
     } else {
         let mut x = mk(&key, &iv);
         for op in &h1 {
-            exec(&mut x, op);
+            exec(&mut x, op, false);
         }
         let Some(mut y) = clone_m(&x) else {
             r.label("type-not-cloneable");
@@ -216,7 +228,7 @@ pub fn check(ctx: &Ctx, t: &mut Tape<'_>, r: &mut Report) -> CheckResult {
             // `clone_from` onto a live object with a different key, IV and history
             let mut z = mk(&key2, &iv2);
             if let Some(op) = h1.first() {
-                exec(&mut z, op);
+                exec(&mut z, op, false);
             }
             if assign_m(&mut z, &x).is_some() {
                 r.label("clone_from");
@@ -234,10 +246,10 @@ pub fn check(ctx: &Ctx, t: &mut Tape<'_>, r: &mut Report) -> CheckResult {
         let take_x = if i2 >= h2.len() { false } else if i3 >= h3.len() { true } else { (order >> (bit % 8)) & 1 == 0 };
         bit += 1;
         if take_x {
-            live2.push(exec(&mut x, &h2[i2]));
+            live2.push(exec(&mut x, &h2[i2], false));
             i2 += 1;
         } else {
-            live3.push(exec(&mut y, &h3[i3]));
+            live3.push(exec(&mut y, &h3[i3], false));
             i3 += 1;
         }
     }
@@ -245,11 +257,11 @@ pub fn check(ctx: &Ctx, t: &mut Tape<'_>, r: &mut Report) -> CheckResult {
     let mut fx = mk(&key, &iv);
     let mut fy = if unrelated { mk(&key2, &iv2) } else { mk(&key, &iv) };
     for op in &h1 {
-        exec(&mut fx, op);
-        exec(&mut fy, op);
+        exec(&mut fx, op, true);
+        exec(&mut fy, op, true);
     }
-    let seq2: Vec<String> = h2.iter().map(|op| exec(&mut fx, op)).collect();
-    let seq3: Vec<String> = h3.iter().map(|op| exec(&mut fy, op)).collect();
+    let seq2: Vec<String> = h2.iter().map(|op| exec(&mut fx, op, true)).collect();
+    let seq3: Vec<String> = h3.iter().map(|op| exec(&mut fy, op, true)).collect();
     for (i, (l, s)) in live2.iter().zip(seq2.iter()).enumerate() {
         ensure!(l == s, format!("C16/original-diverges/{ty}"), "op {i} of h2 on the {} after h1=[{d1}] interleaved with h3=[{d3}]: live {l} / replay {s}", if unrelated { "first instance" } else { "original" });
     }
@@ -285,10 +297,11 @@ fn cts(ctx: &Ctx, t: &mut Tape<'_>, r: &mut Report) -> CheckResult {
     let ra = if dec1 { a.decrypt(Form::Inout, &m1, &mut oa) } else { a.encrypt(Form::Inout, &m1, &mut oa) };
     let rb = b.encrypt(Form::Inout, &m2, &mut ob);
     let (fa, fb) = (f.make(Ctor::New, &key, &iv).expect("harness: ctor"), f.make(Ctor::New, &key, &iv).expect("harness: ctor"));
-    let (mut wa, mut wb) = (vec![0u8; l1], vec![0u8; l2]);
+    // (the replays write into buffers with different previous contents)
+    let (mut wa, mut wb) = (vec![0xA7u8; l1], vec![0x3Cu8; l2]);
     let sa = if dec1 { fa.decrypt(Form::Inout, &m1, &mut wa) } else { fa.encrypt(Form::Inout, &m1, &mut wa) };
     let sb = fb.encrypt(Form::Inout, &m2, &mut wb);
-    ensure!(ra == sa && oa == wa, format!("C16/original-diverges/{ty}"), "original after clone differs from a fresh instance");
-    ensure!(rb == sb && ob == wb, format!("C16/clone-diverges/{ty}"), "clone differs from a fresh instance");
+    ensure!(ra == sa && (ra.is_err() || oa == wa), format!("C16/original-diverges/{ty}"), "original after clone differs from a fresh instance");
+    ensure!(rb == sb && (rb.is_err() || ob == wb), format!("C16/clone-diverges/{ty}"), "clone differs from a fresh instance");
     Ok(())
 }
